@@ -546,14 +546,7 @@ theorem signals_zRemRangeByRank_region_witness :
       changed emptyZSetStore o.store [107] ∧ [107] ∉ o.store.signalled ∧ o.store.flushed = false :=
   ⟨_, rfl, by decide⟩
 
-theorem parseFloat_zero : FloatText.parseFloat [48] = some (some 0) := by
-  have h1 : Bytes.ofString "inf" = [105, 110, 102] := by rw [C15.ofString_ascii _ (by decide)]; decide
-  have h2 : Bytes.ofString "infinity" = [105, 110, 102, 105, 110, 105, 116, 121] := by
-    rw [C15.ofString_ascii _ (by decide)]; decide
-  have h3 : Bytes.ofString "nan" = [110, 97, 110] := by rw [C15.ofString_ascii _ (by decide)]; decide
-  unfold FloatText.parseFloat
-  simp only [h1, h2, h3]
-  decide
+theorem parseFloat_zero : FloatText.parseFloat [48] = some (some 0) := by decide +kernel
 
 theorem floatP_zero : Handler3.floatP [48] = .ok 0 := by
   unfold Handler3.floatP FloatText.redisFloat
